@@ -3,25 +3,517 @@
 from __future__ import annotations
 
 import ast
+from typing import Dict, List, Optional, Set, Tuple
 
+from csverif import AnalysisError
 from csverif.alias import Alias, MUTATORS
-from csverif.astutil import body_walk, dotted, fn_calls, src, statements
-from csverif.cfg import EXIT
+from csverif.astutil import (
+    NotConst,
+    assignments_to,
+    bind_args,
+    body_walk,
+    const_eval,
+    dotted,
+    fn_calls,
+    param_defaults,
+    params,
+    src,
+    statements,
+    strip_cast,
+)
+from csverif.q import FuncView, reaching_defs, returns_of
 
 STORE_ATTRS = {"settings", "settings_by_index", "raw_settings", "raw_settings_by_index", "settings_tuple", "config_block"}
 CONFIG_NAMES = {"bconfig", "config", "self.bconfig", "beacon_config", "self.config"}
+CONFIG_CLS = "beacon.BeaconConfig"
+VIEWS = ("settings", "settings_by_index", "raw_settings", "raw_settings_by_index")
 
 
 def make_source(ctx):
     def is_source(f, e):
         if isinstance(e, ast.Attribute) and e.attr in STORE_ATTRS:
             t = ctx.rs.expr_type(f, e.value)
-            if t == "beacon.BeaconConfig" or (t is None and (dotted(e.value) in CONFIG_NAMES)):
+            if t == CONFIG_CLS or (t is None and (dotted(e.value) in CONFIG_NAMES)):
                 return f"{src(e)} (cached view of the configuration)"
             if t is None and isinstance(e.value, ast.Name) and e.value.id == "self" and f.cls == "BeaconConfig":
                 return f"{src(e)} (cached view of the configuration)"
         return None
     return is_source
+
+
+# ============================================================================================== flow-sensitive locals
+class _FlowAlias(Alias):
+    """csverif.alias.Alias with a flow-sensitive lookup of *re-bound* local names and parameters.
+
+    The engine's analysis keeps one fact per local name for the whole function, so `steps = list(steps)` (a parameter
+    re-bound to a fresh copy of itself) or `x = view[k]; ...; x = sorted(x); x.reverse()` stay aliased for ever.  Here a
+    name that has more than one definition (a parameter counts as one) is evaluated through the definitions that
+    *reach* the use on the CFG; single-definition names keep the engine's behaviour.  (Candidate for csverif/alias.py.)"""
+
+    def tainted(self, f, e, depth: int = 0):
+        e0 = strip_cast(e) if e is not None else None
+        if isinstance(e0, ast.Name) and depth <= 12 and not self.is_source(f, e0):
+            defs = assignments_to(f.node, e0.id)
+            if defs and len(defs) + (1 if e0.id in params(f.node) else 0) > 1:
+                rd = reaching_defs(self.ctx, f, e0.id, e0)
+                if rd:
+                    for st, v in rd:
+                        if st is f.node:
+                            r = self.taint_params.get((f.fq, e0.id))
+                        elif v is not None:
+                            r = self.tainted(f, v, depth + 1)
+                        else:  # loop target / unpacking / augmented assignment: the engine's per-name fact
+                            r = self.local.get(f.fq, {}).get(e0.id)
+                        if r:
+                            return r
+                    return None
+        return super().tainted(f, e, depth)
+
+
+# ============================================================================================== values of the views
+_PROXY_CTORS = {"MappingProxyType", "types.MappingProxyType"}
+_MUT_CTORS = {"dict", "list", "set", "bytearray", "collections.defaultdict", "defaultdict", "collections.OrderedDict", "OrderedDict",
+              "collections.Counter", "Counter", "collections.deque", "deque"}
+_COPY_CALLS = {"copy.copy", "copy.deepcopy", "deepcopy"}
+_P, _N, _BAD, _UNK = "proxy", "none", "not-a-proxy", "unknown"
+
+Env = Dict[str, tuple]  # callee parameter -> (function the argument is written in, argument expression, that function's Env)
+
+
+class _Write:
+    """One place where an attribute of a configuration object is (re)bound or deleted."""
+
+    def __init__(self, f, recv, attr, value, node, how):
+        self.f, self.recv, self.attr, self.value, self.node, self.how = f, recv, attr, value, node, how
+
+    def label(self) -> str:
+        a = self.attr if isinstance(self.attr, str) else "<computed name>" if self.attr is not None else "<any>"
+        return f"{src(self.recv)}.{a}"
+
+
+def _decorators(f) -> Set[str]:
+    return {dotted(d.func if isinstance(d, ast.Call) else d) or "" for d in getattr(f.node, "decorator_list", [])}
+
+
+def _target_pairs(t: ast.AST, v: Optional[ast.AST]) -> List[Tuple[ast.AST, Optional[ast.AST]]]:
+    """(single target, value expression or None when the value is one element of an unpacked iterable)."""
+    if isinstance(t, (ast.Tuple, ast.List)):
+        if isinstance(v, (ast.Tuple, ast.List)) and len(v.elts) == len(t.elts) and not any(isinstance(x, ast.Starred) for x in list(t.elts) + list(v.elts)):
+            out = []
+            for a, b in zip(t.elts, v.elts):
+                out.extend(_target_pairs(a, b))
+            return out
+        out = []
+        for a in t.elts:
+            out.extend(_target_pairs(a.value if isinstance(a, ast.Starred) else a, None))
+        return out
+    return [(t, v)]
+
+
+class _ConfigObjects:
+    """Facts about the instances of one class (the configuration), located by role, never by helper or local names:
+
+    * `writes()`  - every statement of the package that binds/deletes an attribute of an instance: `x.a = v`, tuple targets,
+      `x.a += v`, `del x.a`, `setattr(x, k, v)`, `object.__setattr__`, `x.__dict__[k] = v`, `vars(x)[k] = v`, `x.__dict__.update(..)`;
+    * `kinds(f, e)` - what an expression inside a function may evaluate to: a read-only proxy (`MappingProxyType(..)`), None,
+      something that is evidently not a proxy, or unknown.  Follows re-bound locals through reaching definitions, calls into
+      package functions through their return statements (arguments bound to parameters), attribute reads of the instance
+      through *all* writes of that attribute anywhere in the package, `getattr(self, k)` through the possible values of k;
+    * `fresh(f, e, at)` - is the object e denotes at `at` still under construction (self in `__init__`, a local bound to a
+      constructor call, a parameter that every call site binds to such an object)."""
+
+    def __init__(self, ctx, cls_fq: str):
+        self.ctx, self.cls_fq = ctx, cls_fq
+        self.mod, _, self.cname = cls_fq.partition(".")
+        self._active: Set[tuple] = set()
+        self._writes: Optional[List[_Write]] = None
+        self._sites: Optional[Dict[str, List[tuple]]] = None
+
+    # ------------------------------------------------------------------ receivers
+    def is_self(self, f, e) -> bool:
+        ps = params(f.node)
+        return (isinstance(e, ast.Name) and f.cls == self.cname and f.module.name == self.mod and bool(ps) and e.id == ps[0]
+                and not ({"staticmethod", "classmethod"} & _decorators(f)) and not assignments_to(f.node, e.id))
+
+    def is_instance(self, f, e) -> bool:
+        if self.is_self(f, e):
+            return True
+        t = self.ctx.rs.expr_type(f, e)
+        return t == self.cls_fq or (t is None and dotted(e) in CONFIG_NAMES)
+
+    def _dict_of(self, f, e) -> Optional[ast.AST]:
+        """x for `x.__dict__` / `vars(x)` where x is an instance."""
+        if isinstance(e, ast.Attribute) and e.attr == "__dict__" and self.is_instance(f, e.value):
+            return e.value
+        if isinstance(e, ast.Call) and dotted(e.func) == "vars" and len(e.args) == 1 and self.is_instance(f, e.args[0]):
+            return e.args[0]
+        return None
+
+    # ------------------------------------------------------------------ writes
+    def writes(self) -> List[_Write]:
+        if self._writes is not None:
+            return self._writes
+        out: List[_Write] = []
+        for f in self.ctx.repo.all_funcs():
+            if self._inlined_away(f):
+                continue
+            for st in body_walk(f.node):
+                pairs: List[Tuple[ast.AST, Optional[ast.AST]]] = []
+                how = "store"
+                if isinstance(st, ast.Assign):
+                    for t in st.targets:
+                        pairs.extend(_target_pairs(t, st.value))
+                elif isinstance(st, ast.AnnAssign) and st.value is not None:
+                    pairs.append((st.target, st.value))
+                elif isinstance(st, ast.AugAssign):
+                    pairs.append((st.target, None))
+                    how = "update"
+                elif isinstance(st, ast.Delete):
+                    for t in st.targets:
+                        pairs.extend(_target_pairs(t, None))
+                    how = "delete"
+                elif isinstance(st, (ast.For, ast.AsyncFor)):
+                    pairs.extend(_target_pairs(st.target, None))
+                for t, v in pairs:
+                    if isinstance(t, ast.Attribute) and self.is_instance(f, t.value):
+                        out.append(_Write(f, t.value, t.attr, v, st, how))
+                    elif isinstance(t, ast.Subscript):
+                        x = self._dict_of(f, t.value)
+                        if x is not None:
+                            out.append(_Write(f, x, t.slice, v, st, how))
+                if isinstance(st, ast.Call):
+                    d = dotted(st.func)
+                    if d in ("setattr", "object.__setattr__") and len(st.args) == 3 and self.is_instance(f, st.args[0]):
+                        out.append(_Write(f, st.args[0], st.args[1], st.args[2], st, "store"))
+                    elif d in ("delattr", "object.__delattr__") and len(st.args) == 2 and self.is_instance(f, st.args[0]):
+                        out.append(_Write(f, st.args[0], st.args[1], None, st, "delete"))
+                    elif isinstance(st.func, ast.Attribute) and st.func.attr == "__setattr__" and len(st.args) == 2 and self.is_instance(f, st.func.value):
+                        out.append(_Write(f, st.func.value, st.args[0], st.args[1], st, "store"))
+                    elif isinstance(st.func, ast.Attribute) and st.func.attr in MUTATORS:
+                        x = self._dict_of(f, st.func.value)
+                        if x is not None:
+                            out.append(_Write(f, x, None, None, st, "update"))
+        self._writes = out
+        return out
+
+    def _inlined_away(self, f) -> bool:
+        """A helper the normaliser inlined into every one of its call sites: its statements are judged where they were
+        inlined (the definition that is left behind has no caller)."""
+        return self._was_inlined(f) and not self.sites(f)
+
+    def _was_inlined(self, f) -> bool:
+        st = getattr(self.ctx.repo, "norm_stats", {}).get(f.module.name, {})
+        return f.qualname in {x.split(" (")[0] for x in st.get("inlined", [])}
+
+    # ------------------------------------------------------------------ call sites / parameter binding
+    def sites(self, g) -> List[tuple]:
+        if self._sites is None:
+            self._sites = {}
+            for f in self.ctx.repo.all_funcs():
+                for c in fn_calls(f.node):
+                    cal = self.ctx.rs.resolve_call(f, c)
+                    tgt = cal.func if cal.kind == "func" else self.ctx.rs.class_init(cal.fq) if cal.kind == "class" else None
+                    if tgt is not None:
+                        self._sites.setdefault(tgt.fq, []).append((f, c))
+            # calls written in a helper that was inlined away are judged where they were inlined
+            for _round in range(3):
+                dead = {f.fq for f in self.ctx.repo.all_funcs() if self._was_inlined(f) and not self._sites.get(f.fq)}
+                self._sites = {k: [(cf, c) for cf, c in v if cf.fq not in dead] for k, v in self._sites.items()}
+        return self._sites.get(g.fq, [])
+
+    def bind(self, cf, call: ast.Call, g, cenv: Env) -> Env:
+        """Environment of callee g for the call `call` written in cf."""
+        ps = params(g.node)
+        cal = self.ctx.rs.resolve_call(cf, call)
+        skip = bool(g.cls and ps and "staticmethod" not in _decorators(g) and (cal.kind == "class" or isinstance(call.func, ast.Attribute) or cal.recv_type))
+        env: Env = {}
+        dfl = list(param_defaults(g.node).values())
+        for p, a in bind_args(call, g.node, skip_self=skip).items():
+            if a is None:
+                continue
+            env[p] = (g, a, {}) if any(a is d for d in dfl) else (cf, a, cenv)
+        if skip and cal.kind != "class" and isinstance(call.func, ast.Attribute) and "classmethod" not in _decorators(g):
+            env[ps[0]] = (cf, call.func.value, cenv)
+        return env
+
+    def _param_values(self, f, name: str, env: Env) -> Optional[List[tuple]]:
+        """(function, expression, env) triples a never-rebound parameter may be bound to; None when not enumerable."""
+        if name in env:
+            return [env[name]]
+        out = []
+        for cf, c in self.sites(f):
+            b = self.bind(cf, c, f, {})
+            if name not in b:
+                return None
+            out.append(b[name])
+        return out or None
+
+    # ------------------------------------------------------------------ attribute names (getattr / setattr keys)
+    def names(self, f, k: Optional[ast.AST], env: Env, depth: int = 0) -> Optional[Set[str]]:
+        if k is None or depth > 8:
+            return None
+        k = strip_cast(k)
+        if isinstance(k, ast.Constant):
+            return {k.value} if isinstance(k.value, str) else None
+        if isinstance(k, ast.IfExp):
+            a, b = self.names(f, k.body, env, depth + 1), self.names(f, k.orelse, env, depth + 1)
+            return None if a is None or b is None else a | b
+        if isinstance(k, ast.Name):
+            defs = assignments_to(f.node, k.id)
+            if k.id in params(f.node) and not defs:
+                vals = self._param_values(f, k.id, env)
+                if vals is None:
+                    return None
+                out: Set[str] = set()
+                for cf, ce, cenv in vals:
+                    r = self.names(cf, ce, cenv, depth + 1)
+                    if r is None:
+                        return None
+                    out |= r
+                return out
+            if len(defs) == 1 and defs[0][1] is not None:
+                return self.names(f, defs[0][1], env, depth + 1)
+            if len(defs) == 1 and isinstance(defs[0][0], (ast.For, ast.AsyncFor)):
+                loop = defs[0][0]
+                kw = self._kwargs_keys(f, loop, k.id)
+                if kw is not None:
+                    return kw
+                if isinstance(loop.target, ast.Name):
+                    try:  # `for name in ("a", "b"):`
+                        vals = const_eval(loop.iter)
+                    except (NotConst, KeyError, TypeError, ValueError):
+                        return None
+                    if isinstance(vals, (list, tuple, set)) and vals and all(isinstance(x, str) for x in vals):
+                        return set(vals)
+        return None
+
+    def _kwargs_keys(self, f, loop, name: str) -> Optional[Set[str]]:
+        """`for name, value in kw.items():` / `for name in kw:` over the `**kw` parameter of f: the keyword names that the
+        call sites of f pass and that are not parameters of f."""
+        kwp = getattr(f.node.args.kwarg, "arg", None)
+        if kwp is None or assignments_to(f.node, kwp):
+            return None
+        it, tgt = strip_cast(loop.iter), loop.target
+        if isinstance(it, ast.Call) and isinstance(it.func, ast.Attribute) and not it.args and it.func.attr in ("items", "keys"):
+            keyed = it.func.attr == "items"
+            it = it.func.value
+        else:
+            keyed = False
+        if not (isinstance(it, ast.Name) and it.id == kwp):
+            return None
+        if keyed:
+            if not (isinstance(tgt, (ast.Tuple, ast.List)) and len(tgt.elts) == 2 and isinstance(tgt.elts[0], ast.Name) and tgt.elts[0].id == name):
+                return None
+        elif not (isinstance(tgt, ast.Name) and tgt.id == name):
+            return None
+        sites = self.sites(f)
+        if not sites:
+            return None
+        out: Set[str] = set()
+        ps = set(params(f.node))
+        for _cf, c in sites:
+            if any(kx.arg is None for kx in c.keywords):
+                return None
+            out |= {kx.arg for kx in c.keywords if kx.arg not in ps}
+        return out
+
+    def write_names(self, w: _Write) -> Optional[Set[str]]:
+        if isinstance(w.attr, str):
+            return {w.attr}
+        return self.names(w.f, w.attr, {})
+
+    # ------------------------------------------------------------------ what may a value be
+    @staticmethod
+    def _merge(out: Dict[str, str], more: Dict[str, str]) -> Dict[str, str]:
+        for k, v in more.items():
+            out.setdefault(k, v)
+        return out
+
+    def kinds(self, f, e: Optional[ast.AST], env: Optional[Env] = None, depth: int = 0) -> Dict[str, str]:
+        env = env or {}
+        if e is None:
+            return {_N: "None"}
+        e = strip_cast(e)
+        if depth > 14:
+            return {_UNK: "analysis depth exceeded"}
+        if isinstance(e, ast.Constant):
+            return {_N: "None"} if e.value is None else {_BAD: f"the constant {src(e)[:30]}"}
+        if isinstance(e, (ast.Dict, ast.List, ast.Set, ast.ListComp, ast.DictComp, ast.SetComp, ast.Tuple, ast.GeneratorExp, ast.JoinedStr)):
+            return {_BAD: f"`{src(e)[:40]}` ({type(e).__name__})"}
+        if isinstance(e, ast.NamedExpr):
+            return self.kinds(f, e.value, env, depth + 1)
+        if isinstance(e, ast.IfExp):
+            return self._merge(self.kinds(f, e.body, env, depth + 1), self.kinds(f, e.orelse, env, depth + 1))
+        if isinstance(e, ast.BoolOp):
+            out: Dict[str, str] = {}
+            for v in e.values:
+                self._merge(out, self.kinds(f, v, env, depth + 1))
+            return out
+        if isinstance(e, ast.Name):
+            return self._name_kinds(f, e, env, depth)
+        if isinstance(e, ast.Attribute):
+            if self.is_self(f, e.value):
+                return self.slot(e.attr, depth + 1)
+            return {_UNK: f"`{src(e)[:40]}`"}
+        if isinstance(e, ast.Call):
+            return self._call_kinds(f, e, env, depth)
+        return {_UNK: f"`{src(e)[:40]}`"}
+
+    def _name_kinds(self, f, e: ast.Name, env: Env, depth: int) -> Dict[str, str]:
+        rd = reaching_defs(self.ctx, f, e.id, e)
+        if not rd:
+            defs = assignments_to(f.node, e.id)
+            rd = list(defs)
+            if e.id in params(f.node):
+                rd.append((f.node, None))
+        if not rd:
+            c = f.module.consts.get(e.id)
+            if c is not None:  # a module-level object: judged by its defining expression
+                return self.kinds(f, c, {}, depth + 1)
+            return {_UNK: f"`{e.id}` is not a local"}
+        out: Dict[str, str] = {}
+        for st, v in rd:
+            if st is f.node:
+                vals = self._param_values(f, e.id, env)
+                if vals is None:
+                    self._merge(out, {_UNK: f"parameter `{e.id}`"})
+                else:
+                    for cf, ce, cenv in vals:
+                        self._merge(out, self.kinds(cf, ce, cenv, depth + 1))
+            elif v is None:
+                self._merge(out, {_UNK: f"`{e.id}` bound by unpacking / a loop"})
+            else:
+                self._merge(out, self.kinds(f, v, env, depth + 1))
+        return out
+
+    def _call_kinds(self, f, e: ast.Call, env: Env, depth: int) -> Dict[str, str]:
+        d = dotted(e.func)
+        cal = self.ctx.rs.resolve_call(f, e)
+        if d in _PROXY_CTORS or (cal.kind == "external" and cal.fq in _PROXY_CTORS):
+            return {_P: f"`{src(e)[:40]}`"}
+        if d == "getattr" and len(e.args) in (2, 3) and self.is_self(f, e.args[0]):
+            ns = self.names(f, e.args[1], env)
+            if ns is None:
+                return {_UNK: f"`{src(e)[:40]}`: the attribute name cannot be determined"}
+            out: Dict[str, str] = {}
+            for n in sorted(ns):
+                self._merge(out, self.slot(n, depth + 1))
+            if len(e.args) == 3:
+                self._merge(out, self.kinds(f, e.args[2], env, depth + 1))
+            return out
+        if cal.kind == "func" and cal.func is not None:
+            return self.returns(cal.func, self.bind(f, e, cal.func, env), depth + 1)
+        if d in _MUT_CTORS or d in _COPY_CALLS or (isinstance(e.func, ast.Attribute) and e.func.attr == "copy" and not e.args):
+            return {_BAD: f"`{src(e)[:40]}` builds a new mutable object"}
+        return {_UNK: f"`{src(e)[:40]}`"}
+
+    def returns(self, g, env: Optional[Env] = None, depth: int = 0) -> Dict[str, str]:
+        key = ("ret", g.fq)
+        if key in self._active:
+            return {}
+        self._active.add(key)
+        try:
+            if any(isinstance(n, (ast.Yield, ast.YieldFrom)) for n in body_walk(g.node)):
+                return {_UNK: f"{g.qualname} is a generator"}
+            out: Dict[str, str] = {}
+            for r in returns_of(g):
+                self._merge(out, self.kinds(g, r.value, env or {}, depth + 1))
+            if self.ctx.cfg(g).falls_off_end():
+                self._merge(out, {_N: f"{g.qualname} can end without a return"})
+            return out
+        finally:
+            self._active.discard(key)
+
+    def slot(self, attr: str, depth: int = 0) -> Dict[str, str]:
+        """What `self.<attr>` of an instance may hold: the union over every write of that attribute in the package."""
+        key = ("slot", attr)
+        if key in self._active:
+            return {}
+        self._active.add(key)
+        try:
+            prop = self.ctx.rs.property_of(self.cls_fq, attr)
+            if prop is not None:
+                return self.returns(prop, {}, depth + 1)
+            out: Dict[str, str] = {}
+            found = False
+            for w in self.writes():
+                if w.how == "delete":
+                    continue
+                ns = self.write_names(w)
+                if ns is not None and attr not in ns:
+                    continue
+                found = True
+                if w.how == "update" and ns is not None:
+                    self._merge(out, {_BAD: f"`{src(w.node)[:40]}` in {w.f.qualname} updates it in place"})
+                elif w.value is None:
+                    self._merge(out, {_UNK: f"`{src(w.node)[:40]}` in {w.f.qualname}"})
+                else:
+                    k = self.kinds(w.f, w.value, {}, depth + 1)
+                    self._merge(out, {a: (b if a in (_P, _N) else f"{b} stored by {w.f.qualname}") for a, b in k.items()})
+            if not found:
+                v = self.ctx.repo.class_attrs(self.cls_fq).get(attr)
+                if isinstance(v, ast.Constant) and v.value is None:
+                    return {_N: "class-level None"}
+                return {_UNK: f"attribute {attr!r} is never assigned"}
+            return out
+        finally:
+            self._active.discard(key)
+
+    # ------------------------------------------------------------------ objects under construction
+    def fresh(self, f, e: ast.AST, at: ast.AST, env: Optional[Env] = None, depth: int = 0) -> bool:
+        env = env or {}
+        e = strip_cast(e)
+        if depth > 8:
+            return False
+        if isinstance(e, ast.Call):
+            cal = self.ctx.rs.resolve_call(f, e)
+            if cal.kind == "class":
+                return cal.fq == self.cls_fq
+            if cal.kind == "func" and cal.func is not None:
+                g = cal.func
+                key = ("fresh", g.fq)
+                if key in self._active:
+                    return True
+                self._active.add(key)
+                try:
+                    rets = returns_of(g)
+                    genv = self.bind(f, e, g, env)
+                    return bool(rets) and not self.ctx.cfg(g).falls_off_end() and all(r.value is not None and self.fresh(g, r.value, r, genv, depth + 1) for r in rets)
+                finally:
+                    self._active.discard(key)
+            return False
+        if not isinstance(e, ast.Name):
+            return False
+        if self.is_self(f, e) and f.qualname == f"{self.cname}.__init__":
+            return True
+        rd = reaching_defs(self.ctx, f, e.id, at)
+        if not rd:
+            return False
+        for st, v in rd:
+            if st is f.node:
+                vals = self._param_values(f, e.id, env)
+                if not vals:
+                    return False
+                key = ("fresh-param", f.fq, e.id)
+                if key in self._active:
+                    continue
+                self._active.add(key)
+                try:
+                    if not all(self.fresh(cf, ce, ce, cenv, depth + 1) for cf, ce, cenv in vals):
+                        return False
+                finally:
+                    self._active.discard(key)
+            elif v is None or not self.fresh(f, v, st, env, depth + 1):
+                return False
+        return True
+
+
+def _config(ctx) -> _ConfigObjects:
+    co = getattr(ctx, "_c14_config_objects", None)
+    if co is None or co.ctx is not ctx:
+        co = _ConfigObjects(ctx, CONFIG_CLS)
+        ctx._c14_config_objects = co
+    return co
 
 
 def run(ctx):
@@ -30,14 +522,16 @@ def run(ctx):
         "Interprocedural may-alias + mutation analysis over the whole package: values read out of the cached settings views "
         "of a BeaconConfig (settings, settings_by_index, raw_settings, raw_settings_by_index, settings_tuple, config_block) "
         "are abstract locations; taint follows assignments, tuple swaps, parameter passing, self.attr stores, returns, "
-        "element access and iteration, and is cut by fresh copies. No mutator call / item store / in-place += / attribute "
-        "store may reach such a location. Plus: the views return MappingProxyType, only beacon.py writes BeaconConfig "
-        "attributes, transform()/recover() do not mutate their step lists."
+        "element access and iteration, and is cut by fresh copies (re-bound locals are followed through reaching definitions). "
+        "No mutator call / item store / in-place += / attribute store may reach such a location. Plus: everything a view can "
+        "return is a MappingProxyType (value provenance through cache slots and helpers), BeaconConfig attributes are only "
+        "bound while the object is under construction or to fill a cache slot with such a proxy, transform()/recover() do "
+        "not modify the state of their HttpDataTransform."
     )
     rep.not_decided = ["result equality of every operation before/after (follows from R1-R4 for the step-list channel)", "other channels such as RNG state"]
     rep.trusted_base = ["CPython ast", "mutator / fresh-copy tables in csverif/alias.py", "call resolution by construction/annotation"]
     rep.assumptions = ["objects handed to external libraries are not mutated by them", "tuples/bytes/str/int elements are immutable"]
-    al = Alias(ctx, make_source(ctx)).run()
+    al = _FlowAlias(ctx, make_source(ctx)).run()
     # count the reads of the store we analysed
     reads = 0
     for f in ctx.repo.all_funcs():
@@ -77,12 +571,13 @@ def run(ctx):
     # "each operation gives the same result no matter what was done before": the per-view cache slots (C02.R3)
     from rules import c02
 
-    ctx.import_obligations("R5", c02.r3)
+    try:
+        ctx.import_obligations("R5", c02.r3)
+    except AnalysisError:
+        raise
+    except Exception as e:  # the imported rule crashed on this shape of the views: an analysis error, the other rules still report
+        ctx.rep.error(f"imported rule C02.R3 failed: {type(e).__name__}: {e}")
     r6(ctx)
-
-
-_MUT_CTORS = {"dict", "list", "set", "bytearray", "collections.defaultdict", "defaultdict", "collections.OrderedDict", "OrderedDict",
-              "collections.Counter", "Counter", "collections.deque", "deque"}
 
 
 def _holds_mutable(v: ast.AST) -> bool:
@@ -109,7 +604,6 @@ def r6(ctx):
 
     def is_source(f, e):
         if isinstance(e, ast.Name) and (f.module.name, e.id) in shared_mod and isinstance(e.ctx, ast.Load):
-            from csverif.astutil import assignments_to, params
             if e.id not in params(f.node) and not assignments_to(f.node, e.id):
                 return f"module-level object {f.module.name}.{e.id}"
         if isinstance(e, ast.Attribute):
@@ -137,7 +631,7 @@ def r6(ctx):
                         return f"module-level object {mn}.{an}"
         return None
 
-    al = Alias(ctx, is_source, deep_attrs=True).run()
+    al = _FlowAlias(ctx, is_source, deep_attrs=True).run()
     finds = al.findings()
     ctx.rep.count("shared_module_or_class_objects", len(shared_mod) + len(shared_cls), floor=3)
     ctx.rep.extra["shared_objects"] = sorted([f"{a}.{b}" for a, b in shared_mod] + [f"{a}.{b}.{c}" for a, b, c in shared_cls])
@@ -151,7 +645,7 @@ def r6(ctx):
         if not any(d.split(".")[-1] in ("lru_cache", "cache", "cached_property", "memoize", "memoized") for d in decs):
             continue
         memo += 1
-        from csverif.q import inline, returns_of
+        from csverif.q import inline
         bad = []
         for r in returns_of(f):
             v = inline(f.node, r.value) if r.value is not None else ast.Constant(value=None)
@@ -166,69 +660,155 @@ def r6(ctx):
            f"{len(shared_mod)} module-level and {len(shared_cls)} class-level mutable objects; {len(finds)} mutation sites reach one")
 
 
+def _verdict(ctx, f, text, ks: Dict[str, str], what: str, good: str):
+    """One R2 obligation from the kinds a function can return: a located value that is not a proxy is a violation; a value
+    the analysis cannot trace (external call, parameter of an uncalled helper, dynamic attribute name) is undecided."""
+    if _BAD in ks:
+        ctx.ob("R2", "EXIT", f, text, False, f"{what} can hand out an object that is not a read-only proxy: {ks[_BAD]}", f.node)
+    elif _UNK in ks:
+        ctx.undecided("R2", "EXIT", f, text, f"cannot trace every value {what} returns: {ks[_UNK]}", f.node)
+    elif _P not in ks:
+        ctx.ob("R2", "EXIT", f, text, False, f"{what} never returns a MappingProxyType ({'; '.join(ks.values()) or 'no return value'})", f.node)
+    else:
+        ctx.ob("R2", "EXIT", f, text, True, good, f.node)
+
+
 def r2(ctx):
-    f = ctx.repo.func("beacon.BeaconConfig.settings_map")
-    cfg = ctx.cfg(f)
-    rets = cfg.return_stmts()
-    ok = bool(rets) and all(isinstance(r.value, ast.Call) and dotted(r.value.func) in ("MappingProxyType", "types.MappingProxyType") for r in rets) and not cfg.falls_off_end()
-    ctx.ob("R2", "EXIT", f, "return MappingProxyType(...)", ok, "every view is handed out as a read-only proxy" if ok else "settings_map can return a mutable mapping")
-    for name in ("settings", "settings_by_index", "raw_settings", "raw_settings_by_index"):
-        g = ctx.repo.func(f"beacon.BeaconConfig.{name}")
-        calls = [c for c in fn_calls(g.node) if dotted(c.func) == "self.settings_map"]
-        rets = [r for r in statements(g.node) if isinstance(r, ast.Return)]
-        slots = {dotted(r.value) for r in rets}
-        fills = [s for s in statements(g.node) if isinstance(s, ast.Assign) and dotted(s.targets[0]) in slots]
-        ok = len(calls) == 1 and len(slots) == 1 and all(s.value is calls[0] for s in fills) and bool(fills)
-        ctx.ob("R2", "EXIT", g, name, ok, "returns its cache slot, filled only from settings_map()" if ok else "view does not return a settings_map() proxy from its cache slot")
+    """The settings mappings reject mutation: whatever settings_map() and the four views return - directly, through a
+    local, through a helper or through the cache slot they fill - is a MappingProxyType."""
+    co = _config(ctx)
+    f = ctx.repo.func(f"{CONFIG_CLS}.settings_map")
+    ks = co.returns(f, {})
+    if _N in ks and _BAD not in ks and _UNK not in ks:
+        ctx.ob("R2", "EXIT", f, "return MappingProxyType(...)", False, f"settings_map can return None instead of a read-only proxy: {ks[_N]}", f.node)
+    else:
+        _verdict(ctx, f, "return MappingProxyType(...)", ks, "settings_map", "every view is handed out as a read-only proxy")
+    for name in VIEWS:
+        g = ctx.repo.func(f"{CONFIG_CLS}.{name}")
+        _verdict(ctx, g, name, co.returns(g, {}), f"the view {name}",
+                 "every value the view can return is a read-only proxy made by settings_map() (directly or from a cache slot that only ever holds None or such a proxy)")
 
 
 def r3(ctx):
+    """Who may bind attributes of a configuration: nobody outside beacon.py; inside it only code that works on an object
+    still under construction (self in __init__, a local just built by a constructor call, a parameter every caller binds to
+    such an object) or that fills a cache slot of self with a read-only proxy."""
+    co = _config(ctx)
     n = 0
-    for f in ctx.repo.all_funcs():
-        if f.module.name == "beacon":
-            continue
-        for st in body_walk(f.node):
-            tgts = []
-            if isinstance(st, ast.Assign):
-                tgts = st.targets
-            elif isinstance(st, (ast.AugAssign, ast.AnnAssign)):
-                tgts = [st.target]
-            elif isinstance(st, ast.Delete):
-                tgts = st.targets
-            for t in tgts:
-                for tt in (t.elts if isinstance(t, (ast.Tuple, ast.List)) else [t]):
-                    if isinstance(tt, ast.Attribute):
-                        typ = ctx.rs.expr_type(f, tt.value)
-                        if typ == "beacon.BeaconConfig" or (typ is None and dotted(tt.value) in CONFIG_NAMES):
-                            n += 1
-                            ctx.ob("R3", "ALIAS", f, src(st)[:70], False, f"attribute {tt.attr!r} of a BeaconConfig is written outside beacon.py", st)
-            if isinstance(st, ast.Call) and dotted(st.func) in ("setattr", "delattr", "object.__setattr__") and st.args:
-                typ = ctx.rs.expr_type(f, st.args[0])
-                if typ == "beacon.BeaconConfig" or dotted(st.args[0]) in CONFIG_NAMES:
-                    ctx.ob("R3", "ALIAS", f, src(st)[:70], False, "setattr on a BeaconConfig outside beacon.py", st)
+    inside = []
+    for w in co.writes():
+        if w.f.module.name != co.mod:
+            n += 1
+            what = "deleted" if w.how == "delete" else "written"
+            ctx.ob("R3", "ALIAS", w.f, src(w.node)[:70], False, f"attribute {w.label().rsplit('.', 1)[-1]!r} of a BeaconConfig is {what} outside beacon.py", w.node)
+        else:
+            inside.append(w)
     ctx.ob("R3", "ALIAS", "package", "who-may-write BeaconConfig attributes", n == 0, f"{n} attribute writes on BeaconConfig instances outside beacon.py")
-    # inside beacon.py: only __init__, from_file and the four cache slots
-    allowed = {"BeaconConfig.__init__", "BeaconConfig.from_file", "BeaconConfig.settings", "BeaconConfig.settings_by_index", "BeaconConfig.raw_settings", "BeaconConfig.raw_settings_by_index"}
-    for f in ctx.repo.module("beacon").funcs.values():
-        for st in statements(f.node):
-            tgts = st.targets if isinstance(st, ast.Assign) else [st.target] if isinstance(st, (ast.AugAssign, ast.AnnAssign)) else []
-            for t in tgts:
-                for tt in (t.elts if isinstance(t, (ast.Tuple, ast.List)) else [t]):
-                    if isinstance(tt, ast.Attribute) and ((isinstance(tt.value, ast.Name) and tt.value.id == "self" and f.cls == "BeaconConfig") or ctx.rs.expr_type(f, tt.value) == "beacon.BeaconConfig" or dotted(tt.value) in ("bconfig", "config")):
-                        ok = f.qualname in allowed
-                        ctx.ob("R3", "ALIAS", f, f"{src(tt)} =", ok, "written during construction / cache fill" if ok else "BeaconConfig attribute written after construction", st, nontrivial=ok)
+    for w in inside:
+        if co.fresh(w.f, w.recv, w.node):
+            ok, why = True, "written while the object is under construction"
+        else:
+            ks = co.kinds(w.f, w.value, {}) if (w.how == "store" and w.value is not None and co.is_self(w.f, w.recv)) else {}
+            if ks and _P in ks and set(ks) <= {_P, _N}:
+                ok, why = True, "cache fill: the value stored is a read-only proxy made by settings_map()"
+            else:
+                ok, why = False, "BeaconConfig attribute written after construction (the object is not provably fresh here and the value is not a read-only settings proxy)"
+        ctx.ob("R3", "ALIAS", w.f, f"{w.label()} =", ok, why, w.node, nontrivial=ok)
+
+
+def _state_aliases(ctx, f, e: ast.AST, at: ast.AST, selfname: str, depth: int = 0) -> Optional[str]:
+    """`self.x` if expression e (evaluated at `at`) may denote the object held by instance attribute x, or an element of it."""
+    e = strip_cast(e)
+    if depth > 8:
+        return None
+    if isinstance(e, ast.Attribute) and isinstance(e.value, ast.Name) and e.value.id == selfname:
+        return src(e)
+    if isinstance(e, ast.Subscript) and not isinstance(e.slice, ast.Slice):
+        return _state_aliases(ctx, f, e.value, at, selfname, depth + 1)
+    if isinstance(e, ast.IfExp):
+        return _state_aliases(ctx, f, e.body, at, selfname, depth + 1) or _state_aliases(ctx, f, e.orelse, at, selfname, depth + 1)
+    if isinstance(e, ast.BoolOp):
+        for v in e.values:
+            r = _state_aliases(ctx, f, v, at, selfname, depth + 1)
+            if r:
+                return r
+        return None
+    if isinstance(e, ast.NamedExpr):
+        return _state_aliases(ctx, f, e.value, at, selfname, depth + 1)
+    if isinstance(e, ast.Name) and e.id != selfname:
+        for st, v in reaching_defs(ctx, f, e.id, at):
+            if st is f.node:
+                continue
+            if v is not None:
+                r = _state_aliases(ctx, f, v, st, selfname, depth + 1)
+            elif isinstance(st, (ast.For, ast.AsyncFor)):
+                it = strip_cast(st.iter)
+                if isinstance(it, ast.Call) and dotted(it.func) in ("enumerate", "reversed", "iter", "zip") and it.args:
+                    it = it.args[0]
+                r = _state_aliases(ctx, f, it, st, selfname, depth + 1)
+            else:
+                r = None
+            if r:
+                return r
+    return None
+
+
+def _state_mentions(ctx, f, e: ast.AST, at: ast.AST, selfname: str, depth: int = 0) -> Set[str]:
+    """The `self.x` attributes expression e (evaluated at `at`) is computed from, looking through locals."""
+    out: Set[str] = set()
+    if depth > 6:
+        return out
+    for x in ast.walk(e):
+        if isinstance(x, ast.Attribute) and isinstance(x.value, ast.Name) and x.value.id == selfname:
+            out.add(src(x))
+        elif isinstance(x, ast.Name) and x.id != selfname and isinstance(x.ctx, ast.Load):
+            for st, v in reaching_defs(ctx, f, x.id, at):
+                if st is not f.node and v is not None:
+                    out |= _state_mentions(ctx, f, v, st, selfname, depth + 1)
+    return out
 
 
 def r4(ctx):
+    """transform()/recover() leave the state of their HttpDataTransform alone: no instance attribute is re-bound and no
+    object held by one (the step lists), reached directly or through a local alias, is mutated."""
     for name in ("transform", "recover"):
         f = ctx.repo.func(f"c2.HttpDataTransform.{name}")
+        ps = params(f.node)
+        if not ps:
+            ctx.undecided("R4", "ALIAS", f, "step lists read-only", f"{name}() has no receiver parameter", f.node)
+            continue
+        me = ps[0]
+        fv = FuncView.of(f.node)
+        reads = {n.attr for n in body_walk(f.node) if isinstance(n, ast.Attribute) and isinstance(n.value, ast.Name) and n.value.id == me and isinstance(n.ctx, ast.Load)}
+        # locate the step lists by role: the instance attributes whose value (or a copy derived from it) drives a loop
+        iterated = set()
+        for n in body_walk(f.node):
+            it = n.iter if isinstance(n, (ast.For, ast.AsyncFor, ast.comprehension)) else n.test if isinstance(n, ast.While) else None
+            if it is not None:
+                iterated |= _state_mentions(ctx, f, it, fv.stmt_of(n) or n, me)
         bad = []
         for n in body_walk(f.node):
-            if isinstance(n, ast.Call) and isinstance(n.func, ast.Attribute) and n.func.attr in MUTATORS and dotted(n.func.value) in ("self.tsteps", "self.rsteps"):
-                bad.append(src(n))
-            if isinstance(n, (ast.Assign, ast.AugAssign)):
-                for t in (n.targets if isinstance(n, ast.Assign) else [n.target]):
-                    d = dotted(t.value) if isinstance(t, ast.Subscript) else dotted(t)
-                    if d in ("self.tsteps", "self.rsteps"):
-                        bad.append(src(n))
-        ctx.ob("R4", "ALIAS", f, "step lists read-only", not bad, f"{name}() does not modify its step lists" if not bad else f"{name}() modifies its step lists: {bad}")
+            if isinstance(n, ast.Call) and isinstance(n.func, ast.Attribute) and n.func.attr in MUTATORS:
+                a = _state_aliases(ctx, f, n.func.value, n, me)
+                if a:
+                    bad.append(f"{src(n)[:50]} (on {a})")
+            if isinstance(n, (ast.Assign, ast.AugAssign, ast.AnnAssign, ast.Delete)):
+                tgts = n.targets if isinstance(n, (ast.Assign, ast.Delete)) else [n.target]
+                for t, _v in [p for t0 in tgts for p in _target_pairs(t0, None)]:
+                    if isinstance(t, ast.Attribute) and isinstance(t.value, ast.Name) and t.value.id == me:
+                        bad.append(src(n)[:50])
+                    elif isinstance(t, ast.Subscript):
+                        a = _state_aliases(ctx, f, t.value, n, me)
+                        if a:
+                            bad.append(f"{src(n)[:50]} (on {a})")
+                    elif isinstance(n, ast.AugAssign) and isinstance(t, ast.Name) and isinstance(n.value, (ast.List, ast.ListComp, ast.Tuple)):
+                        a = _state_aliases(ctx, f, t, n, me)
+                        if a:
+                            bad.append(f"{src(n)[:50]} (on {a})")
+        if bad:
+            ctx.ob("R4", "ALIAS", f, "step lists read-only", False, f"{name}() modifies the state of its HttpDataTransform: {bad}", f.node)
+        elif not iterated:
+            ctx.undecided("R4", "ALIAS", f, "step lists read-only",
+                          f"{name}() does not iterate over an object held by an instance attribute: the step list cannot be located (attributes read: {sorted(reads)})", f.node)
+        else:
+            ctx.ob("R4", "ALIAS", f, "step lists read-only", True, f"{name}() walks {sorted(iterated)} and does not modify any instance state", f.node)
